@@ -124,6 +124,31 @@ func ruleP3(r *Run) {
 			}
 			return nil
 		}
+		// conditional withdrawal: `if table.RemoveCb(id, func(.., v, exists) bool { return exists && v == own })`
+		// removes the entry only if it is still this function's own; on the true edge it is gone
+		w.Branch = func(w *Walk, ps PState, cond ast.Expr, val bool) (PState, bool) {
+			st := ps.(*p3State)
+			call, ok := ast.Unparen(cond).(*ast.CallExpr)
+			if !ok || methodName(call) != "RemoveCb" || recvFieldName(info, call) != regRecv || !st.reg || len(call.Args) != 2 {
+				return ps, true
+			}
+			own := false
+			ast.Inspect(call.Args[1], func(k ast.Node) bool {
+				if be, ok := k.(*ast.BinaryExpr); ok && be.Op == token.EQL {
+					ast.Inspect(be, func(q ast.Node) bool {
+						if id, ok := q.(*ast.Ident); ok && chanObj != nil && info.Uses[id] == chanObj {
+							own = true
+						}
+						return true
+					})
+				}
+				return true
+			})
+			if own && val {
+				return &p3State{reg: false, selfSent: st.selfSent}, true
+			}
+			return ps, true
+		}
 		w.Exit = func(w *Walk, ps PState, kind flowKind, at ast.Node) {
 			if kind == fPanic {
 				return
